@@ -7,7 +7,7 @@
 // downstream/upstream protocol Http1). The real HTTP/1 server stream
 // connection (its serve goroutine, fasthttp parser) hands the request to the
 // real downStream, which runs on the real worker pool, matches the real router
-// (one prefix "/" route, no rewrite of any kind configured), takes a connection
+// (a prefix "/" route and a path "*" route to one cluster, no rewrite of any kind configured), takes a connection
 // from the real HTTP/1 connection pool of the real cluster manager (the client
 // connection is a vfake.Conn made by the registered factory) and sends the
 // request through the real client stream (AppendHeaders / AppendData). The bytes
@@ -299,24 +299,39 @@ func c01hInit() {
 		cc := v2.Cluster{Name: c01hCluster, ClusterType: v2.SIMPLE_CLUSTER, LbType: v2.LB_ROUNDROBIN}
 		hosts := []v2.Host{{HostConfig: v2.HostConfig{Address: "127.0.0.1:21080", Weight: 1}}}
 		cluster.NewClusterManagerSingleton([]v2.Cluster{cc}, map[string][]v2.Host{c01hCluster: hosts}, nil)
-		cfg := map[string]interface{}{
-			"router_config_name": c01hRouter,
-			"virtual_hosts": []interface{}{map[string]interface{}{
-				"name":    "vh",
-				"domains": []string{"*"},
-				"routers": []interface{}{map[string]interface{}{
-					"match": map[string]interface{}{"prefix": "/"},
-					"route": map[string]interface{}{"cluster_name": c01hCluster},
+		// three router configurations, no rewrite of any kind: upstream protocol = the
+		// listener's (default), or fixed to Http2 / Http1 by the route's upstream_protocol
+		for name, upProto := range map[string]string{c01hRouter: "", c01hRouter + "-to-Http2": "Http2", c01hRouter + "-to-Http1": "Http1"} {
+			action := func() map[string]interface{} {
+				a := map[string]interface{}{"cluster_name": c01hCluster}
+				if upProto != "" {
+					a["upstream_protocol"] = upProto
+				}
+				return a
+			}
+			cfg := map[string]interface{}{
+				"router_config_name": name,
+				"virtual_hosts": []interface{}{map[string]interface{}{
+					"name":    "vh",
+					"domains": []string{"*"},
+					"routers": []interface{}{map[string]interface{}{
+						"match": map[string]interface{}{"prefix": "/"},
+						"route": action(),
+					}, map[string]interface{}{
+						// asterisk-form (OPTIONS *): HTTP/2 hands the path "*" to the router, HTTP/1 "/*"
+						"match": map[string]interface{}{"path": "*"},
+						"route": action(),
+					}},
 				}},
-			}},
-		}
-		b, _ := stdjson.Marshal(cfg)
-		rc := &v2.RouterConfiguration{}
-		if err := stdjson.Unmarshal(b, rc); err != nil {
-			panic(err)
-		}
-		if err := router.GetRoutersMangerInstance().AddOrUpdateRouters(rc); err != nil {
-			panic(err)
+			}
+			b, _ := stdjson.Marshal(cfg)
+			rc := &v2.RouterConfiguration{}
+			if err := stdjson.Unmarshal(b, rc); err != nil {
+				panic(err)
+			}
+			if err := router.GetRoutersMangerInstance().AddOrUpdateRouters(rc); err != nil {
+				panic(err)
+			}
 		}
 	})
 }
@@ -354,6 +369,7 @@ func (r *c01hRec) wait(what string, pred func() bool) error {
 		}
 		select {
 		case <-r.sig:
+		case <-time.After(500 * time.Microsecond): // conditions that no connection write / event announces
 		case <-deadline.C:
 			return fmt.Errorf("timeout (%v) waiting for: %s", c01hTimeout, what)
 		}
@@ -392,7 +408,13 @@ type c01hSession struct {
 	p    *proxy
 }
 
-func c01hNewSession() (*c01hSession, string) {
+func c01hNewSession() (*c01hSession, string) { return c01hNewSessionProto(protocol.HTTP1) }
+
+func c01hNewSessionProto(proto api.ProtocolName) (*c01hSession, string) {
+	return c01hNewSessionProtos(proto, proto)
+}
+
+func c01hNewSessionProtos(proto, upProto api.ProtocolName) (*c01hSession, string) {
 	c01hInit()
 	rec := &c01hRec{sig: make(chan struct{}, 1)}
 	vfake.Reset()
@@ -411,7 +433,7 @@ func c01hNewSession() (*c01hSession, string) {
 	ctx := variable.NewVariableContext(context.Background())
 	_ = variable.Set(ctx, types.VariableAccessLogs, []api.AccessLog{})
 	_ = variable.Set(ctx, types.VariableListenerName, c01hListener)
-	_ = variable.Set(ctx, types.VarProtocolConfig, []api.ProtocolName{protocol.HTTP1})
+	_ = variable.Set(ctx, types.VarProtocolConfig, []api.ProtocolName{proto})
 	down := vfake.NewServerSide("down")
 	_ = variable.Set(ctx, types.VariableConnection, down)
 	_ = variable.Set(ctx, types.VariableConnectionID, down.ID())
@@ -421,12 +443,16 @@ func c01hNewSession() (*c01hSession, string) {
 		rec.mu.Unlock()
 		rec.notify()
 	}
-	p := NewProxy(ctx, &v2.Proxy{DownstreamProtocol: string(protocol.HTTP1), UpstreamProtocol: string(protocol.HTTP1), RouterConfigName: c01hRouter}).(*proxy)
+	routerName := c01hRouter
+	if upProto != proto {
+		routerName = c01hRouter + "-to-" + string(upProto)
+	}
+	p := NewProxy(ctx, &v2.Proxy{DownstreamProtocol: string(proto), UpstreamProtocol: string(upProto), RouterConfigName: routerName}).(*proxy)
 	down.FilterManager().AddReadFilter(p)
 	down.FilterManager().InitializeReadFilters()
 	down.AddConnectionEventListener(rec)
 	if p.serverStreamConn == nil {
-		return nil, "the proxy did not create the HTTP/1 server stream connection from its configured protocol"
+		return nil, "the proxy did not create the server stream connection from its configured protocol"
 	}
 	return &c01hSession{rec: rec, down: down, p: p}, ""
 }
